@@ -38,8 +38,10 @@ LEVEL_TEXT = ("Machine-checked: (1) for every import tree of strip/preserve decl
               "tests, up to two predicates per step, union, filter, position/last/count/string/string-length/local-name/"
               "normalize-space/=/</+/-/and/or/concat/contains/starts-with), evaluation that asks `strip` at the node tests "
               "and in string-values equals evaluation on the physically stripped document; the same for the events of "
-              "xsl:copy-of and for key() tables; xsl:number level=any with from= is proved NOT to have the property "
-              "(counterexample, known finding). Tied to the working tree by a translator (call-site inventory + ordering "
+              "xsl:copy-of, key() tables, for-each/apply-templates contexts, sort keys, xsl:number level single/multiple and "
+              "level any without from (including that the C++ backwards walk computes the Recommendation's count); "
+              "xsl:number level=any with from= is proved NOT to have the property (counterexample, known finding); "
+              "xml:space=preserve (XSLT 3.4 third bullet) is part of the selection theorem, following the proposed repair. Tied to the working tree by a translator (call-site inventory + ordering "
               "statements, re-proved each run), by calling the real StylesheetRoot::shouldStripSourceNode on every text "
               "node (XalanSourceTree and Xerces DOM sources), the real XPath/copy-of/key()/xsl:number through "
               "XalanTransformer, and by differential transformations (with declarations on D vs without on D') over 26 "
@@ -57,6 +59,8 @@ THEOREMS = [
     "XalanModel.Props.C13.firstMatch_eq_spec",
     "XalanModel.Props.C13.shouldStrip_eq_spec",
     "XalanModel.Props.C13.bestIn_characterisation",
+    "XalanModel.Props.C13.xml_space_walk_eq_spec",
+    "XalanModel.Props.C13.xml_space_inherited",
     "XalanModel.Props.C13.strip_simulation",
     "XalanModel.Props.C13.strip_simulation_string",
     "XalanModel.Props.C13.strip_simulation_stylesheet",
@@ -64,8 +68,14 @@ THEOREMS = [
     "XalanModel.Props.C13.strVal_strip",
     "XalanModel.Props.C13.forgetful_nodeTest_counterexample",
     "XalanModel.Props.C13.apply_templates_default_children",
+    "XalanModel.Props.C13.select_contexts_simulation",
+    "XalanModel.Props.C13.sort_keys_simulation",
     "XalanModel.Props.C13.copy_of_simulation",
     "XalanModel.Props.C13.key_simulation",
+    "XalanModel.Props.C13.number_single_multiple_simulation",
+    "XalanModel.Props.C13.number_any_nofrom_loop_eq_count",
+    "XalanModel.Props.C13.number_any_count_simulation",
+    "XalanModel.Props.C13.number_any_nofrom_simulation",
     "XalanModel.Props.C13.number_any_from_counterexample",
     "XalanModel.Props.C13.observation_sites_accounted",
     "XalanModel.Props.C13.ordering_code_as_modelled",
@@ -96,11 +106,11 @@ def make_lines(d, case, cid):
     st, dt = G.sheet_tokens(sheet), G.doc_tokens(doc)
     sfx = "x" if case.get("xerces") else ""      # source parsed into a Xerces DOM instead of the XalanSourceTree
     if kind == "strip":
-        write_case(d, cid, G.render_sheet(sheet, cid, G.OUT_XML), G.render_doc(doc))
+        write_case(d, cid, G.render_sheet(sheet, cid, G.OUT_XML), G.render_doc(doc, dtd=case.get("dtd", False)))
         return [("strip%s %s %s ; %s" % (sfx, cid, " ".join(st), " ".join(dt)), "strip")]
     hx = case.get("xmlspace", True)
     doc2 = G.strip_doc(sheet, doc, honour_xml_space=hx)
-    if kind in ("eval", "copy", "key", "number"):
+    if kind in ("eval", "copy", "key", "number", "numbersm"):
         if kind == "eval":
             body = G.eval_body(case["expr"])
             et = " ".join(G.expr_tokens(case["expr"]))
@@ -110,23 +120,26 @@ def make_lines(d, case, cid):
         elif kind == "key":
             body = G.key_body(case["match"], case["use"], case["lit"])
             et = "%s ; %s ; %s" % (G.test_token(case["match"]), " ".join(G.expr_tokens(case["use"])), G.hex_units(case["lit"]))
+        elif kind == "numbersm":
+            body = G.numbersm_body(case["count"], case["from"], case["level"])
+            et = "%s ; %s ; %s" % (G.test_token(case["count"]), G.test_token(case["from"]) if case["from"] else "none", case["level"])
         else:
             body = G.number_body(case["count"], case["from"])
             et = "%s ; %s" % (G.test_token(case["count"]), G.test_token(case["from"]) if case["from"] else "none")
-        write_case(d, cid + "a", G.render_sheet(sheet, cid + "a", body), G.render_doc(doc))
-        write_case(d, cid + "b", G.render_sheet(sheet, cid + "b", body, with_decls=False), G.render_doc(doc2))
+        write_case(d, cid + "a", G.render_sheet(sheet, cid + "a", body), G.render_doc(doc, dtd=case.get("dtd", False)))
+        write_case(d, cid + "b", G.render_sheet(sheet, cid + "b", body, with_decls=False), G.render_doc(doc2, dtd=case.get("dtd", False)))
         return [("%s %sa %s ; %s ; %s" % (kind, cid, " ".join(st), " ".join(dt), et), "A"),
                 ("%s %sb [ ] ; %s ; %s" % (kind, cid, " ".join(G.doc_tokens(doc2)), et), "B")]
     body = G.BODY_BY_NAME[case["body"]]
-    write_case(d, cid + "a", G.render_sheet(sheet, cid + "a", body.replace("@DOC@", cid + "a.xml")), G.render_doc(doc))
+    write_case(d, cid + "a", G.render_sheet(sheet, cid + "a", body.replace("@DOC@", cid + "a.xml")), G.render_doc(doc, dtd=case.get("dtd", False)))
     write_case(d, cid + "b", G.render_sheet(sheet, cid + "b", body.replace("@DOC@", cid + "b.xml"), with_decls=False),
-               G.render_doc(doc2))
+               G.render_doc(doc2, dtd=case.get("dtd", False)))
     lines = [("xform%s %sa" % (sfx, cid), "A"), ("xform%s %sb" % (sfx, cid), "B")]
     if case_has_preserve_effect(case):
         # third run: pre-stripped *ignoring* xml:space — tells the known xml:space defect from anything else
         doc3 = G.strip_doc(sheet, doc, honour_xml_space=False)
         write_case(d, cid + "c", G.render_sheet(sheet, cid + "c", body.replace("@DOC@", cid + "c.xml"), with_decls=False),
-                   G.render_doc(doc3))
+                   G.render_doc(doc3, dtd=case.get("dtd", False)))
         lines.append(("xform%s %sc" % (sfx, cid), "C"))
     return lines
 
@@ -164,8 +177,8 @@ def judge(case, r):
         o0 = bits(G.spec_bits(sheet, doc, False))
         if "SPEC-DIFFERS" in mv or mv == "bad":
             return ("machinery", "strip.lean-spec", "Lean model/spec/parse: " + mv)
-        if mv != o0:
-            return ("machinery", "strip.oracle", "python §3.4 oracle %s != Lean model %s" % (o0, mv))
+        if mv != o:
+            return ("machinery", "strip.oracle", "python §3.4 oracle %s != Lean model %s" % (o, mv))
         if iv != o:
             if iv == o0:
                 return ("violation", "strip.xml-space-preserve-ignored",
@@ -173,7 +186,7 @@ def judge(case, r):
             return ("violation", "strip.selection", "shouldStripSourceNode=%s, XSLT 3.4 selects %s" % (iv, o))
         return ("ok", None, None)
     (ia, ma), (ib, mb) = r["A"], r["B"]
-    if kind in ("eval", "copy", "key", "number"):
+    if kind in ("eval", "copy", "key", "number", "numbersm"):
         if ia != ib:
             # the known `from` defect is the one the model mirrors: only when both outputs are exactly the modelled ones
             sub = ""
@@ -306,7 +319,7 @@ def shrink(harness, model, case, d, want, budget=40):
 
 def describe(case):
     d = {"kind": case["kind"], "sheet_tokens": " ".join(G.sheet_tokens(case["sheet"])),
-         "doc_xml": G.render_doc(case["doc"]), "case": case}
+         "doc_xml": G.render_doc(case["doc"], dtd=case.get("dtd", False)), "case": case}
     if case["kind"] == "xform":
         d["body"] = case["body"]
         d["stylesheet"] = G.render_sheet(case["sheet"], "main", G.BODY_BY_NAME[case["body"]])
@@ -316,8 +329,11 @@ def describe(case):
         d["stylesheet_body"] = G.key_body(case["match"], case["use"], case["lit"])
     if case["kind"] == "number":
         d["stylesheet_body"] = G.number_body(case["count"], case["from"])
+    if case["kind"] == "numbersm":
+        d["stylesheet_body"] = G.numbersm_body(case["count"], case["from"], case["level"])
     if case["kind"] != "strip":
-        d["doc_prestripped_xml"] = G.render_doc(G.strip_doc(case["sheet"], case["doc"], case.get("xmlspace", True)))
+        d["doc_prestripped_xml"] = G.render_doc(G.strip_doc(case["sheet"], case["doc"], case.get("xmlspace", True)),
+                                                dtd=case.get("dtd", False))
     return d
 
 
@@ -377,6 +393,10 @@ for _b, _ in G.BODIES:
     CORPUS.append({"kind": "xform", "body": _b, "sheet": S([dec(True, ("*",)), dec(False, ("q", "", "b"))]), "doc": CORPUS_DOC})
 R_, X_ = ("", "r"), ("", "x")
 CORPUS += [
+    {"kind": "eval", "sheet": S([dec(True, ("*",))]), "doc": CORPUS_DOC,
+     "expr": ("attr-of", ("stepP", ("step", ("root",), "descendant", ("any",)), "child", ("node",), ("num", 1)), ("", "n"))},
+    {"kind": "eval", "sheet": S([dec(True, ("*",))]), "doc": CORPUS_DOC,
+     "expr": ("attr-count", ("step", ("root",), "descendant", ("node",)))},
     # the witness of Props.C13.number_any_from_counterexample (known finding C13-number-any-from)
     {"kind": "number", "sheet": S([dec(True, ("q", "", "a"))]),
      "doc": D(E(R_, E(X_, T("x")), E(B_, E(A_, T(" "))), T("y"))), "count": ("text",), "from": ("name", "", "a")},
@@ -437,6 +457,10 @@ def gen_cases(ctx):
     for _ in range(n_number):
         cases.append({"kind": "number", "sheet": G.gen_sheet(r), "doc": G.gen_doc(r, r.range(2, 4), r.range(3, 5)),
                       "count": G.gen_pattern(r), "from": G.gen_pattern(r) if r.chance(1, 3) else None})
+    for i in range(n_number):
+        cases.append({"kind": "numbersm", "sheet": G.gen_sheet(r), "doc": G.gen_doc(r, r.range(2, 4), r.range(3, 5)),
+                      "count": G.gen_pattern(r), "from": G.gen_pattern(r) if r.chance(1, 3) else None,
+                      "level": "single" if i % 2 else "multiple"})
     for i in range(n_xerces):
         # the same two streams with the source held in a Xerces DOM (XercesDOMWrapper nodes, own isWhitespace())
         if i % 3 == 0:
@@ -448,10 +472,15 @@ def gen_cases(ctx):
         # documents with xml:space attributes (XSLT 3.4, third bullet)
         doc = G.gen_doc(r, 3, 4)
         doc = add_xml_space(r, doc)
+        xer = i % 3 == 0           # a third of them through the Xerces DOM wrapper
         if i % 2:
-            cases.append({"kind": "strip", "sheet": G.gen_sheet(r), "doc": doc})
+            cases.append({"kind": "strip", "sheet": G.gen_sheet(r), "doc": doc, "xerces": xer})
         else:
-            cases.append({"kind": "xform", "sheet": G.gen_sheet(r), "doc": doc, "body": r.choice(G.BODIES)[0]})
+            cases.append({"kind": "xform", "sheet": G.gen_sheet(r), "doc": doc, "body": r.choice(G.BODIES)[0], "xerces": xer})
+    # a sixth of the generated cases carry an internal DTD subset with element-content declarations
+    for i, c in enumerate(cases[len(CORPUS):]):
+        if i % 6 == 5:
+            c["dtd"] = True
     if ctx.thorough:
         cases += small_scope()
     return cases
@@ -497,6 +526,8 @@ def nontrivial_key(case, r):
         return case["kind"] + " " + G.expr_xpath(case["expr"]) + " | " + " ".join(G.doc_tokens(case["doc"]))[:200] + bits(sb)
     if case["kind"] == "key":
         return "key " + G.key_body(case["match"], case["use"], case["lit"])[60:] + " | " + " ".join(G.doc_tokens(case["doc"]))[:200] + bits(sb)
+    if case["kind"] == "numbersm":
+        return "numbersm %s %s %s | " % (case["level"], case["count"], case["from"]) + " ".join(G.doc_tokens(case["doc"]))[:200] + bits(sb)
     if case["kind"] == "number":
         return "number %s %s | " % (case["count"], case["from"]) + " ".join(G.doc_tokens(case["doc"]))[:200] + bits(sb)
     return "xform " + case["body"] + " | " + " ".join(G.sheet_tokens(case["sheet"])) + " | " + bits(sb)
@@ -547,7 +578,7 @@ def run(ctx):
     for i in order:
         c, r = cases[i], res[i]
         st, key, what = judge(c, r)
-        cls = c["kind"] + ("(xerces-dom)" if c.get("xerces") else "") + (":" + c["body"] if c["kind"] == "xform" else "")
+        cls = c["kind"] + ("(xerces-dom)" if c.get("xerces") else "") + ("(dtd)" if c.get("dtd") else "") + (":" + c["body"] if c["kind"] == "xform" else "")
         ctx.case(nontrivial_key=nontrivial_key(c, r), cls=cls,
                  sample=({"kind": c["kind"], "sheet": " ".join(G.sheet_tokens(c["sheet"])), "doc": G.render_doc(c["doc"])[:300],
                           "reply": {k: v[0][:120] for k, v in r.items()}} if i in (0, 3, 40, 60, 2000, 5000) else None))
